@@ -108,6 +108,8 @@ def run(sid, tier, props, only):
     cmd = [sys.executable, os.path.join(TOOLS, "mutant.py"), os.path.join(dst, "patch.diff"), props, "--tier", tier]
     if only:
         cmd += ["--only", only]
+    if os.environ.get("CV_JOBS"):
+        cmd += ["--jobs", os.environ["CV_JOBS"]]
     t0 = time.time()
     p = subprocess.run(cmd, stdout=subprocess.PIPE, stderr=subprocess.STDOUT, text=True)
     print(p.stdout)
